@@ -12,7 +12,7 @@ HANDLERS = ["h_c18.ml"]
 def gen_history(rng, big=False):
     n = rng.choice([0, 0, 1, 7, 8, 31, 32, 33, 63, 64, 65, rng.randrange(0, 200)])
     if big:
-        n = rng.choice([0, 4000, 4095, 4096, 4097, 8191, 8192, 16384, 32767, 32768, 32769, 65535, 65536, 65537])
+        n = rng.choice([0, 4000, 4070, 4090, 4095, 4096, 4097, 8170, 8191, 8192, 16384, 32767, 32768, 32769, 65535, 65536, 65537])
     length = n
     ops = []
     nops = rng.randrange(1, 40)
@@ -51,6 +51,13 @@ def gen_history(rng, big=False):
             ops = ops + batch
         length += nb
         ops += ["l", "g%d" % (length - 1), "b"]
+    if big and rng.random() < 0.5:
+        # many short variadic AddBit calls (3..31 bits) straddling word and growth boundaries
+        for _ in range(rng.choice([8, 30, 60])):
+            nb = rng.randrange(2, 32)
+            ops.append("A%d:%d" % (nb, rng.randrange(1, 1000)))
+            length += nb
+        ops += ["l", "b"]
     if big:
         # cross the 128-word and 1024-word growth boundaries
         reps = rng.choice([3, 18, 40])
